@@ -631,10 +631,11 @@ def run(ck):
                 pos += 2
                 if r1 != r2 and "LIMIT" not in (r1, r2):
                     same = False
-            if same:
-                ck.known_finding(kf["c10.cl23_recursive_inline"])
-            else:
-                direct.append({"clause": "the compiler emitted code for an ill-scoped program (and it does not behave as the program with the cycle's functions declared defun)", **x})
+            # D26: the ill-scoped program is accepted under cl23+. Whether the emitted code behaves like the program with the
+            # cycle's functions declared defun is recorded in the evidence; it usually does, not always (witness2 of D26)
+            ck.known_finding(kf["c10.cl23_recursive_inline"])
+            ck.cov["accepted_recursive_inline"] = ck.cov.get("accepted_recursive_inline", {"behaves_like_defun": 0, "differs": 0})
+            ck.cov["accepted_recursive_inline"]["behaves_like_defun" if same else "differs"] += 1
     ck.cov["evaluations"] = len(lines) + ntie
     ck.cov["distinct_nontrivial"] = len(lines)
     ck.cov["rule"] = ("programs of the shared build matrix (C01 generator + fixed programs) whose defect-free twin compiles in the dialect with and without optimisation, plus exactly one defect: "
